@@ -1,5 +1,6 @@
 #!/bin/bash
-# tools/mkseed.sh <prop-id-lower> <letter> [extra hint file]: creates /tmp/seed-<id>-<x> worktree and prompt file from the c16-a template
+# tools/mkseed.sh <prop-id-lower> <letter> [extra hint]: creates the /tmp/seed-<id>-<x> worktree and the prompt file
+# /tmp/seed-<id>-<x>.prompt.txt from tools/seed_prompt.txt (property text only; nothing from /verif is shown to the agent)
 set -e
 id=$1; x=$2; ID=${id^^}
 name=seed-$id-$x
@@ -7,17 +8,16 @@ git -C /repo worktree remove --force /tmp/$name 2>/dev/null || true
 rm -rf /tmp/$name /tmp/$name-out
 git -C /repo worktree add -q --detach /tmp/$name HEAD
 python3 - "$ID" "$name" "$x" "${3:-}" <<'P'
-import json,sys
+import json,sys,os
 ID,name,x,hint=sys.argv[1:5]
 for l in open('/verif/properties.jsonl'):
     o=json.loads(l)
     if o['id']==ID: break
-t=open('/tmp/seed-c16-a.prompt.txt').read()
-a=t.index('C16: When an input ends'); b=t.index('Your job:')
-t=t[:a]+f"{ID}: {o['title']}\n\n{o['statement']}\n\nQuantified over: {o['quantifier']['text']}\n\n\n"+t[b:]
-t=t.replace('seed-c16-a',name).replace('"C16"',f'"{ID}"')
+t=open('/verif/tools/seed_prompt.txt').read()
+prop=f"{ID}: {o['title']}\n\n{o['statement']}\n\nQuantified over: {o['quantifier']['text']}\n"
+t=t.replace('@@PROPERTY@@',prop).replace('@@WT@@','/tmp/'+name).replace('@@OUT@@','/tmp/'+name+'-out').replace('@@ID@@',ID)
 if x!='a':
-    t=t.replace("Avoid the most obvious candidates","A different change was already seeded for this property; pick a DIFFERENT part of the property statement (read all its clauses) and a different file if possible. Avoid the most obvious candidates")
+    t=t.replace("Avoid the most obvious candidates","Other changes were already seeded for this property; pick a DIFFERENT part of the property statement (read all its clauses) and different files where possible. Avoid the most obvious candidates")
 if hint:
     t=t.replace('Your job:', 'Note: '+hint+'\n\nYour job:',1)
 open(f'/tmp/{name}.prompt.txt','w').write(t)
